@@ -487,3 +487,62 @@ def drv_apply_mask(doc, args, inst):
 
 
 DRIVERS.update({'getitem': drv_getitem, 'apply_mask': drv_apply_mask})
+
+
+def drv_ctor_list(doc, args, inst):
+    shapes = [[clampi(s) for s in shp] for shp in inst['shapes']]
+    cores = [tn.randn(s, dtype=tn.float64) for s in shapes]
+    try:
+        t = TT(cores)
+    except Exception as e:
+        if 'no_raise' in doc.get('obligation', ''):
+            return ['TT(cores with shapes %s) raises %s: %s' % (shapes, type(e).__name__, str(e)[:120])]
+        return []
+    we = wf_errors(t)
+    return ['TT(cores with shapes %s) is not well formed: %s' % (shapes, we)] if we else []
+
+
+def drv_ctor_none(doc, args, inst):
+    t = TT(None)
+    msgs = []
+    if not hasattr(t, 'shape'):
+        msgs.append('TT(None) has no attribute shape')
+    elif t.shape != []:
+        msgs.append('TT(None).shape = %r' % (t.shape,))
+    return msgs
+
+
+def drv_set_core(doc, args, inst):
+    x = build(inst, args['x'], 3)
+    shp = [clampi(s) for s in inst['new_shape']]
+    k = int(inst['k'])
+    # make the ranks fit so that the call is accepted whenever possible
+    if 0 <= k < len(x.N) and len(shp) == (4 if x.is_ttm else 3):
+        shp[0], shp[-1] = x.R[k], x.R[k + 1]
+    try:
+        x.set_core(k, tn.randn(shp, dtype=tn.float64))
+    except Exception as e:
+        return []
+    we = wf_errors(x)
+    return ['after set_core(%d, core of shape %s): %s' % (k, shp, we)] if we else []
+
+
+def drv_reduce_dims(doc, args, inst):
+    x = build(inst, args['x'], 3)
+    f0 = x.full()
+    excl = [int(e) for e in inst.get('exclude', [])]
+    try:
+        x.reduce_dims(excl) if excl else x.reduce_dims()
+    except Exception as e:
+        return ['reduce_dims raises %s: %s' % (type(e).__name__, str(e)[:120])]
+    msgs = []
+    we = wf_errors(x)
+    if we:
+        msgs.append('after reduce_dims(%s): %s' % (excl, we))
+    f1 = x.full()
+    if f1.numel() != f0.numel() or not relerr(f1.reshape(-1), f0.reshape(-1)) < 1e-10:
+        msgs.append('reduce_dims changed the value')
+    return msgs
+
+
+DRIVERS.update({'ctor_list': drv_ctor_list, 'ctor_none': drv_ctor_none, 'set_core': drv_set_core, 'reduce_dims': drv_reduce_dims})
